@@ -52,5 +52,5 @@ def run(chk):
                        "over 41 significant characters (thorough: <= 4 over 22) and all pairs of %d fragments with 4 separators; each text is scanned "
                        "by the build with the committed lex.yy.c and by the build with a scanner regenerated from lexer.l; kinds, texts, end "
                        "lines, file labels and the single trailing EOF must equal the specification's on both" % len(frags))
-    chk.assumptions += ["NUL bytes excluded (the scanner is handed a C string)", "malformed include directives are C15's business (cases with an INCLUDE token are dropped from the pure tokenisation comparison and counted)"]
+    chk.assumptions += ["malformed include directives are C15's business (cases with an INCLUDE token are dropped from the pure tokenisation comparison and counted)"]
     log("C14: %d scanner runs compared" % total)
